@@ -651,10 +651,38 @@ def shared_state(ctx):
                     # a registration decorator: it runs while the module is imported (applied to definitions), never during a session
                     ctx.holds('C18.shared', 'module-level table %s.%s is filled while the module is imported, by the registration decorator %s' % (mod, name, fn.qn), fn.site(n))
                     continue
-                if not ok and isinstance(n, ast.Assign) and any(isinstance(t_, ast.Subscript) and isinstance(t_.value, ast.Name) and t_.value.id == name and
-                                                                 any(isinstance(r_, ast.Subscript) and isinstance(r_.ctx, ast.Load) and isinstance(r_.value, ast.Name) and r_.value.id == name
-                                                                     and ast.unparse(r_.slice) == ast.unparse(t_.slice) for r_ in ast.walk(inner.node)) for t_ in n.targets) \
-                        and isinstance(n.value, ast.Call) and isinstance(n.value.func, ast.Name) and n.value.func.id in ('tuple', 'frozenset', 'str', 'float', 'int'):
+                def _memo_shape(n_):
+                    # TABLE[k] = <immutable snapshot> in a function that also looks TABLE[k] / TABLE.get(k) up; the snapshot may be bound to a name first
+                    if not isinstance(n_, ast.Assign):
+                        return False
+                    IMM = ('tuple', 'frozenset', 'str', 'float', 'int')
+
+                    def imm_(v_):
+                        if isinstance(v_, ast.Call) and isinstance(v_.func, ast.Name) and v_.func.id in IMM:
+                            return True
+                        if isinstance(v_, ast.Name):
+                            asg_ = [a_.value for a_ in ast.walk(inner.node) if isinstance(a_, ast.Assign) and any(isinstance(t2_, ast.Name) and t2_.id == v_.id for t2_ in a_.targets)]
+                            # (the look-up itself - x = TABLE.get(k) - is the other binding of the same name)
+                            asg_ = [a_ for a_ in asg_ if not (isinstance(a_, ast.Call) and isinstance(a_.func, ast.Attribute) and a_.func.attr == 'get'
+                                                              and isinstance(a_.func.value, ast.Name) and a_.func.value.id == name)
+                                    and not (isinstance(a_, ast.Subscript) and isinstance(a_.value, ast.Name) and a_.value.id == name)]
+                            return bool(asg_) and all(imm_(a_) for a_ in asg_ if not isinstance(a_, ast.Name))
+                        return False
+                    for t_ in n_.targets:
+                        if isinstance(t_, ast.Subscript) and isinstance(t_.value, ast.Name) and t_.value.id == name:
+                            k_ = ast.unparse(t_.slice)
+                            looked = any((isinstance(r_, ast.Subscript) and isinstance(r_.ctx, ast.Load) and isinstance(r_.value, ast.Name) and r_.value.id == name and ast.unparse(r_.slice) == k_) or
+                                         (isinstance(r_, ast.Call) and isinstance(r_.func, ast.Attribute) and r_.func.attr == 'get' and isinstance(r_.func.value, ast.Name)
+                                          and r_.func.value.id == name and len(r_.args) == 1 and ast.unparse(r_.args[0]) == k_) for r_ in ast.walk(inner.node))
+                            if looked and imm_(n_.value):
+                                return True
+                    return False
+                if not ok and isinstance(n, ast.Call) and isinstance(n.func, ast.Attribute) and n.func.attr == 'clear' and not n.args \
+                        and any(_memo_shape(a_) for a_ in ast.walk(inner.node)):
+                    # emptying a memo table only costs recomputation; the table itself is judged at the statement that files the entries
+                    ctx.holds('C18.shared', 'module-level table %s.%s is a memo emptied as a whole when it grows too large (%s)' % (mod, name, fn.qn), fn.site(n))
+                    continue
+                if not ok and _memo_shape(n):
                     # a process-wide memo (look the key up, compute and file it on a miss): harmless iff the key carries everything an entry depends on and the entries
                     # are never changed by those who receive them (immutable snapshots, checked by the shape above)
                     try:
@@ -1381,6 +1409,17 @@ def state_scan(ctx, cnames):
                                   % (fld, cname, fmt(mt[1])[:60]), key='C18.memo|state|%s|%s' % (m.qn, fld))
                     continue
                 if mt is not None and mt[0] == 'unsound':
+                    from ..lib import validated_against_question
+                    try:
+                        checked_ = validated_against_question(M, m, {fld}, depth=1)
+                    except Exception:
+                        checked_ = False
+                    if checked_:
+                        # not a memo answered by key alone: what is found under the key (a cursor, a stamped entry) is compared with the question before it is used
+                        ctx.undecided('C18.memo', 'stateless components keep no state between calls (%s)' % m.qn, m.site(n),
+                                      'self.%s is filed under %s, which leaves out %s, but what is found there is compared with the question before use: whether that check is '
+                                      'sufficient is not decided here' % (fld, fmt(mt[1])[:60], ', '.join(mt[2])))
+                        continue
                     ctx.violation('C18.memo', 'stateless components keep no state between calls (%s)' % m.qn, m.site(n),
                                   'self.%s memoises under the key %s, which leaves out %s: a later query is answered with an earlier one\'s value' % (fld, fmt(mt[1])[:60], ', '.join(mt[2])),
                                   key='C18.memo|state|%s|%s' % (m.qn, fld))
